@@ -48,6 +48,18 @@ pub struct ShardContext {
 impl ShardContext {
     fn published_segments(id: usize, base_dir: &PathBuf, on_disk: Vec<String>) -> Vec<String> {
         if !base_dir.join("segments.idx").exists() {
+            if on_disk.is_empty() {
+                // A fresh shard: write the empty index now, so that a segment directory without an
+                // index entry is recognisable as unpublished from the very first flush on.
+                match futures::executor::block_on(async {
+                    SegmentIndex::load(base_dir).await?.save(base_dir).await
+                }) {
+                    Ok(()) => {}
+                    Err(err) => {
+                        warn!(target: "shard::context", shard_id = id, "Failed to create the empty segment index: {:?}", err);
+                    }
+                }
+            }
             return on_disk;
         }
         match futures::executor::block_on(SegmentIndex::load(base_dir)) {
